@@ -82,6 +82,15 @@ pub fn unsupported(lang: Lang, d: &Desc) -> Option<String> {
                     }
                 }
             }
+            if lang == Lang::Cxx {
+                // cxx.rs get_trailing_size refuses ("Multiple unknown size fields") a field of
+                // unknown size that is followed by anything that is not of constant size
+                if let Some(i) = fields.iter().position(|f| f.cond.is_none() && crate::sizes::field_size(d, decl, f) == crate::sizes::Size::Unknown) {
+                    if fields[i + 1..].iter().any(|g| !matches!(crate::sizes::field_size(d, decl, g), crate::sizes::Size::Static(_))) {
+                        return Some("field of unknown size followed by a field of non-constant size (refused by the C++ backend)".into());
+                    }
+                }
+            }
             if lang == Lang::Java && fields.iter().any(|f| matches!(&f.kind, FieldKind::Size { field_id, .. } if field_id == "_body_")) {
                 // run_java_generator_tests.sh excludes Packet_Body_Field_VariableSize: the size
                 // field of a body is emitted as the size of an array called `body`
